@@ -690,7 +690,13 @@ pub fn drive_kex(t: &mut Tracer, tier: &str, seed: u64, plan: Option<String>) {
             ra_script: vec![b32(&arr(&v["ra"]))], rb_script: vec![], da: arr(&v["da"]), db: arr(&v["db"]), forge: None, none_mask: 16 };
         kx_run(t, &sess(), &run, &mut rng);
     }
-    for (i, v) in read_plan(&plan).iter().filter(|v| v["kind"] != "forge" && v["kind"] != "vzero").enumerate() {
+    // an unlucky honest responder (static key crafted by the specification for the scripted ephemeral scalar so that t_B = 0): V = O, B must fail
+    for v in read_plan(&plan).iter().filter(|v| v["kind"] == "tzero" && v["check"] == 1) {
+        let run = KxRun { t_ra: false, t_rb: false, t_sb: false, t_sa: false, kind: "tzero".into(), klen: 16, ida: "alice".into(), idb: "bob".into(),
+            ra_script: vec![], rb_script: vec![b32(&arr(&v["rb"]))], da: arr(&v["da"]), db: arr(&v["db"]), forge: None, none_mask: 16 };
+        kx_run(t, &sess(), &run, &mut rng);
+    }
+    for (i, v) in read_plan(&plan).iter().filter(|v| v["kind"] != "forge" && v["kind"] != "vzero" && v["kind"] != "tzero").enumerate() {
         let reps = if thorough { 3 } else { 1 };
         for _ in 0..reps {
             let run = KxRun { t_ra: v["ra"] == 1, t_rb: v["rb"] == 1, t_sb: v["sb"] == 1, t_sa: v["sa"] == 1, kind: v["kind"].as_str().unwrap().into(), klen: 16 + (i % 40),
@@ -818,7 +824,19 @@ fn codec_encode_event(t: &mut Tracer, sess: &str, d: &[u8]) -> Option<Value> {
     res
 }
 
-fn codec_decode_event(t: &mut Tracer, sess: &str, kind: &'static str, input: &[u8], fault: &str, canon: bool) {
+fn b64(d: &[u8]) -> String {
+    const T: &[u8; 64] = b"ABCDEFGHIJKLMNOPQRSTUVWXYZabcdefghijklmnopqrstuvwxyz0123456789+/";
+    let mut o = String::new();
+    for c in d.chunks(3) {
+        let v = (c[0] as u32) << 16 | (*c.get(1).unwrap_or(&0) as u32) << 8 | *c.get(2).unwrap_or(&0) as u32;
+        o.push(T[(v >> 18) as usize & 63] as char); o.push(T[(v >> 12) as usize & 63] as char);
+        o.push(if c.len() > 1 { T[(v >> 6) as usize & 63] as char } else { '=' }); o.push(if c.len() > 2 { T[v as usize & 63] as char } else { '=' });
+    }
+    o
+}
+fn codec_decode_event(t: &mut Tracer, sess: &str, kind: &'static str, input: &[u8], fault: &str, canon: bool) { codec_decode_event_der(t, sess, kind, input, fault, canon, &[]) }
+/// `der`: for a PEM text assembled by the driver, the DER it was made from (the specification re-encodes it and, if the text is that PEM, judges the document by its DER templates)
+fn codec_decode_event_der(t: &mut Tracer, sess: &str, kind: &'static str, input: &[u8], fault: &str, canon: bool, der: &[u8]) {
     let inp = input.to_vec();
     let out: Outcome<Vec<u8>> = guard_timed(20, move || -> Result<Vec<u8>, String> {
         let e = |x: &dyn std::fmt::Debug| format!("{:?}", x);
@@ -834,7 +852,7 @@ fn codec_decode_event(t: &mut Tracer, sess: &str, kind: &'static str, input: &[u
         }
     });
     let o = out.ok().cloned().unwrap_or_default();
-    t.emit(sess, "codec.decode", json!({"prop": "C19", "kind": kind, "input": bytes(input), "fault": fault, "canon": if canon { 1 } else { 0 },
+    t.emit(sess, "codec.decode", json!({"prop": "C19", "kind": kind, "input": bytes(input), "fault": fault, "canon": if canon { 1 } else { 0 }, "der": bytes(der),
         "out": bytes(&o), "outcome": out.name(), "detail": out.detail()}));
 }
 
@@ -910,6 +928,21 @@ pub fn drive_codec(t: &mut Tracer, tier: &str, seed: u64) {
         for cut in [0usize, 10, 26, 90] { codec_decode_event(t, &sess(), "spki_der", &arr(&enc["spki_der"])[..cut], "truncated", false); }
         for cut in [0usize, 10, 36, 100, 137] { codec_decode_event(t, &sess(), "pkcs8_der", &arr(&enc["p8_der"])[..cut], "truncated", false); }
         for len in [0usize, 1, 31, 33, 64] { codec_decode_event(t, &sess(), "sk_bytes", &rng.bytes(len), "wrong-length", false); }
+        // the other framings OpenSSL writes for the same key: public key in COMPRESSED form inside SPKI and inside the PKCS#8 ECPrivateKey
+        // (-conv_form compressed), and an ECPrivateKey without the optional publicKey field -- assembled here byte by byte, recognised and
+        // judged by the specification's templates (SpkiHeadC, Pkcs8HeadC / Pkcs8MidC, Pkcs8HeadN)
+        {
+            let alg: Vec<u8> = hexb("020100301306072a8648ce3d020106082a811ccf5501822d");
+            let spki_c = [hexb("3039301306072a8648ce3d020106082a811ccf5501822d032200"), pkc.clone()].concat();
+            let p8_c = [hexb("3067"), alg.clone(), hexb("044d304b0201010420"), arr(&enc["skb"]), hexb("a124032200"), pkc.clone()].concat();
+            let p8_n = [hexb("3041"), alg.clone(), hexb("0427302502010104" ), vec![0x20u8], arr(&enc["skb"])].concat();
+            codec_decode_event(t, &sess(), "spki_der", &spki_c, "compressed-pub", false);
+            codec_decode_event(t, &sess(), "pkcs8_der", &p8_c, "compressed-pub", false);
+            codec_decode_event(t, &sess(), "pkcs8_der", &p8_n, "no-pub", false);
+            let pem = |label: &str, der: &[u8]| { let b = b64(der); let mut s = format!("-----BEGIN {}-----\n", label); for c in b.as_bytes().chunks(64) { s.push_str(std::str::from_utf8(c).unwrap()); s.push('\n'); } s.push_str(&format!("-----END {}-----\n", label)); s };
+            codec_decode_event_der(t, &sess(), "pkcs8_pem", pem("PRIVATE KEY", &p8_c).as_bytes(), "compressed-pub", false, &p8_c);
+            codec_decode_event_der(t, &sess(), "spki_pem", pem("PUBLIC KEY", &spki_c).as_bytes(), "compressed-pub", false, &spki_c);
+        }
     }
     // OpenSSL-made documents (committed corpus)
     let base = concat!(env!("CARGO_MANIFEST_DIR"), "/../corpus/");
